@@ -116,6 +116,16 @@ def subquery_corpus():
         out.append(f"select x1.a, x2.b from t1 as x1 left join t2 as x2 on {cnd}")
         out.append(f"select x1.a, x2.b, x1.c from t1 as x1 cross join t2 as x2 where {cnd}")
         out.append(f"select count(*) from t1 as x1 join t2 as x2 on {cnd} join t3 as x3 on x3.a = x2.a")
+    # sort keys that are not in the select list (ORDER BY [+ LIMIT / OFFSET] on a column, an aggregate, a column of
+    # the other join side), with and without a filter on the key
+    for tail in ("", " limit 2", " limit 1 offset 1", " offset 1"):
+        out += [f"select x1.a from t1 as x1 order by x1.b{tail}", f"select x1.a from t1 as x1 order by x1.b desc, x1.c{tail}",
+                f"select x1.c from t1 as x1 where x1.b > 0 order by x1.b{tail}",
+                f"select x1.a, count(*) from t1 as x1 group by x1.a order by sum(x1.b){tail}",
+                f"select x1.a from t1 as x1 group by x1.a order by max(x1.c) desc{tail}",
+                f"select x1.a from t1 as x1 join t2 as x2 on x1.a = x2.a order by x2.b{tail}",
+                f"select x1.a + 1 from t1 as x1 order by x1.a * 2, x1.b{tail}",
+                f"select distinct x1.a from t1 as x1 order by x1.a{tail}"]
     # derived tables (subqueries in FROM): plain, computed, simplifiable, aggregated, joined, filtered
     for inner in ("select a, b from t1", "select a + 1 as s, b from t1", "select a + 0 as s, b from t1",
                   "select a * 1 as s, b from t1", "select a * b as s, b from t1", "select - (- a) as s, b from t1",
